@@ -8,6 +8,10 @@ props = [json.loads(l) for l in open(os.path.join(V, "properties.jsonl"))]
 DIFF = "bounded-exhaustive grammar/derivation enumeration executed on the real code, compared point by point with a reference interpreter"
 META = "bounded-exhaustive enumeration of identity-schema instantiations x documents executed on the real code; metamorphic oracle (implementation against itself)"
 claimed = {
+ "C10": ("bounded-exhaustive enumeration of operator pairs/triples x operand shapes x variable assignments on the real code; metamorphic oracle (flat vs spec-parenthesised), competing grouping cross-checked against the reference evaluator",
+         "all 18x18 ordered operator pairs (each operand position varied over 9 shapes x 5 unary prefixes), all 18^3 triples and all unary/binary combinations are evaluated flat and with the implied parentheses on every assignment of the operand variables; outcomes must be equal",
+         "trusts the specification's precedence table as transcribed in c10Paren (30 lines) and, for the parentheses-override part, the reference evaluator",
+         "4/C10"),
  "C17": (META,
          "every instantiation of the structural identity schemata with sub-expressions from the stated menus is evaluated in both spellings on every document of the C01 alphabet and the two outcomes must be equal; no reference model is involved",
          "trusts only the harness-side post-processing (null pruning, concatenation) and the instrumentation seam (sorted member order)",
